@@ -290,7 +290,30 @@ def rule_6(ctx):
             got = ('error', W.error_code(ctx, got[1]))
         ctx.expect(S.same(got, _as_value(w)), anchor, f'text identity: {f}',
                    f'{f} (A5 = "abc", A7 = He said "hi", A8 = "  two  words ", A9 = "\u00c4bC") evaluates to {got!r}, expected {w!r}')
-    ctx.floor(90, 'text cells')
+    # text literals spelt like the workbook's defined names are texts; the names themselves are the cells they are bound to
+    sheets = {'Data': {'A1': 'Gross', 'A2': 0.25, 'B1': '=LEN("total")', 'B2': '=UPPER("total")', 'B3': '="total"&"|"', 'B4': '=LEFT("total",2)',
+                       'B5': '=FIND("t","total",1)', 'B6': '=LEN("total"&"xyz")', 'B7': '=total&":"&"total"', 'B8': '=EXACT("rate","RATE")',
+                       'B9': '=LEN(total)+LEN("rate")', 'B10': '=CONCATENATE("rate","=",rate)', 'B11': '=LOWER("Data!A1")&MID("total",2,3)'}}
+    names = {'total': 'Data!$A$1', 'rate': 'Data!$A$2'}
+    want = {'B1': 5, 'B2': 'TOTAL', 'B3': 'total|', 'B4': 'to', 'B5': 1, 'B6': 8, 'B7': 'Gross:total', 'B8': False, 'B9': 9, 'B10': 'rate=0.25', 'B11': 'data!a1ota'}
+    wbn = W.Workbook(ctx, sheets=sheets, names=names)
+    for a, w in want.items():
+        got = wbn.value('Data!' + a)
+        ctx.expect(S.same(got, _as_value(w)), anchor, f'text literal next to defined names: {sheets["Data"][a]}',
+                   f'{sheets["Data"][a]} in a workbook with the names {names} (A1 = "Gross", A2 = 0.25) evaluates to {got!r}, expected {w!r}: a text '
+                   'literal is its characters whatever names the workbook defines')
+    # & has no limit on the length of a chain
+    count = 260
+    chain = {'A1': 'x', 'B1': '=' + '&'.join(['A1', '"b"'] * (count // 2)), 'B2': '=LEN(B1)', 'B3': '=LEN(' + '&'.join(['"ab"'] * count) + ')'}
+    wbc = W.Workbook(ctx, chain, max_items=5000, max_depth=2500)
+    for a, w in (('B1', 'xb' * (count // 2)), ('B2', count), ('B3', 2 * count)):
+        got = wbc.value('Sheet1!' + a)
+        if isinstance(got, tuple) and got and got[0] == 'error-class':
+            got = ('error', W.error_code(ctx, got[1]))
+        shown = chain[a] if len(chain[a]) < 60 else chain[a][:40] + f'... ({count} operands)'
+        ctx.expect(S.same(got, _as_value(w)), anchor, f'& chain of {count} operands: {shown}',
+                   f'{shown} evaluates to {str(got)[:80]!r}, expected {str(w)[:40]!r}...: & joins its two operands, chains of any length included')
+    ctx.floor(104, 'text cells')
 
 
 RULES = [
